@@ -110,8 +110,8 @@ func (s *SafeKV[K, V]) Len() int {
 
 // Keys returns all the keys
 func (s *SafeKV[K, V]) Keys() []K {
-	keys := make([]K, 0, len(s.entries))
 	s.mu.RLock()
+	keys := make([]K, 0, len(s.entries))
 	for k := range s.entries {
 		keys = append(keys, k)
 	}
@@ -121,8 +121,8 @@ func (s *SafeKV[K, V]) Keys() []K {
 
 // Values returns all the values
 func (s *SafeKV[K, V]) Values() []V {
-	values := make([]V, 0, len(s.entries))
 	s.mu.RLock()
+	values := make([]V, 0, len(s.entries))
 	for _, v := range s.entries {
 		values = append(values, v)
 	}
